@@ -529,14 +529,35 @@ impl<S: Storage> Builder<S> {
             .register(id, span.clone(), output_row_counter.clone());
 
         let (tx, rx) = async_broadcast::broadcast(16);
+        #[cfg(risinglight_verif)]
+        let (verif_actor, verif_op) = (
+            format!("{}/{id}.{name}", crate::verif::current_actor()),
+            format!("{id}.{name}"),
+        );
         let handle = tokio::task::Builder::default()
             .name(&format!("{id}.{name}"))
             .spawn(
                 async move {
+                    #[cfg(risinglight_verif)]
+                    crate::verif::adopt(verif_actor);
+                    #[cfg(risinglight_verif)]
+                    let mut verif_chunk = 0usize;
                     while let Some(item) = stream.next().await {
                         if let Ok(chunk) = &item {
                             output_row_counter.inc(chunk.cardinality() as _);
                         }
+                        #[cfg(risinglight_verif)]
+                        let item = {
+                            let fault = crate::verif::fault_point(&verif_op, verif_chunk);
+                            verif_chunk += 1;
+                            match fault {
+                                Some(crate::verif::Fault::Panic) => panic!("verif: injected panic"),
+                                Some(crate::verif::Fault::Error) => {
+                                    Err(ExecutorError::aborted())
+                                }
+                                None => item,
+                            }
+                        };
                         if tx.broadcast(item).await.is_err() {
                             // all receivers are dropped, stop the task.
                             return;
